@@ -14,6 +14,12 @@ TraceNext ==
                  /\ ev.result = last'.result                 \* response / error / fallback as prescribed
                  /\ ev.conc = inflight'                      \* the admission is released when the call finished
                  /\ ev.inb = (IF role = "server" THEN inflight' ELSE 0)
+         [] ev.e = "hold" ->
+              /\ Hold(ev) /\ ev.called = last'.called /\ ev.result = last'.result
+              /\ ev.conc = inflight' /\ ev.inb = (IF role = "server" THEN inflight' ELSE 0)
+         [] ev.e = "resume" ->
+              /\ Resume(ev) /\ ev.called = 0 /\ ev.result = last'.result
+              /\ ev.conc = inflight' /\ ev.inb = (IF role = "server" THEN inflight' ELSE 0)
          [] OTHER -> FALSE
 TraceSpec == TraceInit /\ [][TraceNext]_<<tvars, l>>
 TraceAccepted ==
